@@ -81,6 +81,9 @@ def handler_classes(h: ast.ExceptHandler) -> Tuple[Set[str], Set[str]]:
     return full, part - full
 
 
+STATS = {"cfgs_built": 0, "cfg_nodes": 0, "cfg_edges": 0, "functions": set()}
+
+
 class CFG:
     def __init__(
         self,
@@ -104,6 +107,10 @@ class CFG:
         first = self._seq(func.body, self.ret_exit, ctx)
         self.entry = self._new("entry")
         self._edge(self.entry, first, "n")
+        STATS["cfgs_built"] += 1
+        STATS["cfg_nodes"] += len(self.nodes)
+        STATS["cfg_edges"] += sum(len(v) for v in self.succ.values())
+        STATS["functions"].add((getattr(func, "name", "?"), getattr(func, "lineno", 0)))
 
     # -- construction --------------------------------------------------
     def _new(self, kind: str, node: Optional[ast.AST] = None, part: Optional[ast.AST] = None) -> int:
